@@ -58,10 +58,10 @@ type EncSpec struct {
 	// overrides for the ciphertext explorer
 	RawCipher    []byte `json:"rawCipher,omitempty"` // if UseRawCipher, the data CipherValue bytes verbatim
 	UseRawCipher bool   `json:"useRawCipher,omitempty"`
-	NoMethod     bool   `json:"noMethod,omitempty"`      // omit EncryptedData/EncryptionMethod
-	NoCipherData bool   `json:"noCipherData,omitempty"`  // omit EncryptedData/CipherData
-	NoKey        bool   `json:"noKey,omitempty"`         // no EncryptedKey at all
-	KeyCipherRaw string `json:"keyCipherRaw,omitempty"`  // raw override of the key CipherValue text
+	NoMethod     bool   `json:"noMethod,omitempty"`     // omit EncryptedData/EncryptionMethod
+	NoCipherData bool   `json:"noCipherData,omitempty"` // omit EncryptedData/CipherData
+	NoKey        bool   `json:"noKey,omitempty"`        // no EncryptedKey at all
+	KeyCipherRaw string `json:"keyCipherRaw,omitempty"` // raw override of the key CipherValue text
 	UseKeyRaw    bool   `json:"useKeyCipherRaw,omitempty"`
 }
 
